@@ -16,3 +16,11 @@ Definition quote_with_ref (isprint f_isInGraphicList : Z -> bool) (g_hex : bytes
 
 Definition json_escape_ref (g_hex : bytes) (m_safeSet : list (Z * bool)) (val : bytes) (buf : bytes) : option bytes :=
   Some (buf ++ json_escape val).
+
+(* the two callers *)
+Definition quoted_string_ref (isprint f_isInGraphicList : Z -> bool) (g_hex : bytes) (m_safeSet : list (Z * bool))
+  (s_jsonMode : bool) (s_buf : bytes) (str : bytes) : option bytes :=
+  Some (s_buf ++ if s_jsonMode then json_quote str else quote_go isprint str).
+Definition string_key_ref (g_hex : bytes) (m_safeSet : list (Z * bool)) (s_jsonMode : bool) (s_buf : bytes) (str : bytes)
+  : option bytes :=
+  Some (s_buf ++ if s_jsonMode then json_quote str else str).
